@@ -21,6 +21,6 @@ CFG = {
                   "relational reading of the format (Stores); a typed getter yields the projection of the FIRST entry with the tag, TagNotFound when absent, "
                   "UnexpectedTagDataType for another type - never a made-up value; file paths are dirs[dirindex[k]] joined with basenames[k] (error on an "
                   "out-of-range index), dependency / changelog lists are the arrays zipped in order, empty when all three tags are absent, an error when a "
-                  "member is missing; no accessor panics. The model is tied to the code by comparing the full accessor dump on every generated header.",
+                  "member is missing; no accessor panics. The model is tied to the code by comparing the full accessor dump on every generated header. File digests: the (algorithm, hex length) pairs FileDigest::new accepts are regenerated from the source on every run and proved to be the algorithms' real output sizes (file_digest_lengths_standard, code_table_is_standard, fileDigestNew_ok_iff); the spec judges them by the real sizes (SHA-224 = 56: old_sha224_length_witness).",
     "level_note": "Trusted: Lean kernel; model fidelity as exercised (40 accessors compared textually per case); from_utf8_lossy and Path::join models.",
 }
